@@ -93,6 +93,8 @@ func init() {
 			c.rulesC07(a)
 			c.rulesR3auto()
 			c.rulesR5auto(a)
+			c.rulesR5selfret()
+			c.rulesR6delpos()
 		}
 	})
 	register("C14", propInfo{
@@ -149,6 +151,7 @@ func init() {
 			c.rulesR4hlock()
 			c.rulesR4endsend(c.lockAnalysis())
 			c.rulesR5misc("C13", a)
+			c.rulesR6misc("C13", a)
 			c.rulesR3misc("C13")
 			c.rulesR3misc("C06") // C06.close: a waiter collected but never closed survives Dispose
 			c.rulesC13send(c.lockAnalysis())
@@ -218,6 +221,7 @@ func init() {
 		c.rulesR3push()
 		c.rulesR4nochange()
 		c.rulesR5misc("C09", nil)
+		c.rulesR6misc("C09", nil)
 		c.rulesR3rpc2()
 	})
 	register("C10", propInfo{
@@ -243,6 +247,7 @@ func init() {
 		c.rulesR5histbreak()
 		c.rulesR5hist2()
 		c.rulesR5getmach()
+		c.rulesR6misc("C17", nil)
 		c.rulesC17ord()
 		c.rulesR3misc("C17")
 		c.rulesR3misc("C14") // C14.net: a history bound to the mirror records what the tracers are told
@@ -337,6 +342,7 @@ func init() {
 		c.rulesR4outbox()
 		c.rulesR5filt()
 		c.rulesR5txmiss()
+		c.rulesR6misc("C16", nil)
 		c.rulesR3batch3("C16")
 	})
 }
